@@ -11,6 +11,9 @@ Decided clauses (necessary ordering / sealing conditions):
          multi-file save, and no dump call site switches it off
   C15.d  set_target_value stores the value on every path that is not an
          explicitly logged "ignored" early return
+  C15.e  what the link machinery asks of the type layer: mapping targets / parameters
+         are recognised through the type's origin; link targets below a mapping entry
+         are narrowed by the entry's key only
 Not decided: target == f(sources) for all inputs and precedence mixes.
 """
 
@@ -23,6 +26,13 @@ from .srcmodel import call_leaf, calls_in, const_str, contains, dotted, get_kwar
 from .util import guard_chain, root_name
 
 X = {"e"}  # implicit exception edges
+
+
+def _ancestors(n):
+    p = getattr(n, "_jv_parent", None)
+    while p is not None:
+        yield p
+        p = getattr(p, "_jv_parent", None)
 
 
 def run(ctx: Ctx) -> int:
@@ -230,6 +240,55 @@ def run(ctx: Ctx) -> int:
             ctx.oblige("C15.d", not early, early[0] if early else lp, "every item of a list of classes that has the linked parameter receives the value (no early exit from the loop)" if not early else "the loop over the items of a list target can stop early: later items keep a stale value", fn=stv, construct="item loop complete")
 
     ctx.assumptions += ["argparse dispatches an option to the action registered in parser._option_string_actions"]
+    # ---------------- C15.e ----------------------------------------------------
+    # (1) whether a group-valued source is handed over as a dict is decided from the target's / parameter's type
+    #     by is_mapping_typehint: a parametrised mapping (Dict[str, X]) is recognised through its ORIGIN
+    imt = ctx.func("_typehints:ActionTypeHint.is_mapping_typehint")
+
+    def _is_origin_expr(fn_, e) -> bool:
+        if isinstance(e, ast.BoolOp) and isinstance(e.op, ast.Or):
+            return _is_origin_expr(fn_, e.values[0])
+        if isinstance(e, ast.Call) and call_leaf(e) == "get_typehint_origin":
+            return True
+        if isinstance(e, ast.Attribute) and e.attr == "__origin__":
+            return True
+        if isinstance(e, ast.Name):
+            defs = [s for s in walk_local(fn_) if isinstance(s, ast.Assign) and any(isinstance(t, ast.Name) and t.id == e.id for t in s.targets)]
+            return bool(defs) and all(_is_origin_expr(fn_, s.value) for s in defs)
+        return False
+
+    mem = [n for n in ast.walk(imt) if isinstance(n, ast.Compare) and len(n.ops) == 1 and isinstance(n.ops[0], ast.In) and isinstance(n.comparators[0], ast.Name) and n.comparators[0].id == "mapping_origin_types"]
+    ok = any(_is_origin_expr(imt, m.left) for m in mem)
+    ctx.oblige("C15.e", ok, mem[0] if mem else imt, "is_mapping_typehint tests the type's origin against mapping_origin_types (Dict[str, X], Mapping[...] are mappings)" if ok else "is_mapping_typehint no longer tests the ORIGIN of the type: for a Dict[str, X] target or compute_fn parameter a group-valued source is passed as a Namespace instead of a dict, so the target is not compute_fn(source)", fn=imt)
+    # (2) link targets below a Dict entry are narrowed by the entry's key only; the `init_args.` component is
+    #     stripped where present, never required (entries of dataclass type have none)
+    ad15 = ctx.func("_typehints:adapt_typehints")
+    lt_stores = [s for s in walk_local(ad15) if isinstance(s, ast.Assign) and any(isinstance(t, ast.Subscript) and const_str(t.slice) == "linked_targets" for t in s.targets) and any(isinstance(a, ast.For) and "items()" in ast.unparse(a.iter) for a in _ancestors(s))]
+    ctx.need(lt_stores, "adapt_typehints Dict arm: narrowing of sub_add_kwargs['linked_targets'] per entry")
+    bad_f = []
+    n_f = 0
+    for s in lt_stores:
+        for comp in [x for x in ast.walk(s.value) if isinstance(x, (ast.SetComp, ast.ListComp, ast.GeneratorExp))]:
+            for gen in comp.generators:
+                for t in gen.ifs:
+                    n_f += 1
+                    consts = [x.value for x in ast.walk(t) if isinstance(x, ast.Constant) and isinstance(x.value, str)]
+                    names = {x.id for x in ast.walk(t) if isinstance(x, ast.Name)}
+                    for nm in list(names):
+                        for d in [q for q in walk_local(ad15) if isinstance(q, ast.Assign) and any(isinstance(tt, ast.Name) and tt.id == nm for tt in q.targets)]:
+                            consts += [x.value for x in ast.walk(d.value) if isinstance(x, ast.Constant) and isinstance(x.value, str)]
+                    if any("init_args" in c for c in consts):
+                        bad_f.append(t)
+    ok = n_f >= 1 and not bad_f
+    ctx.oblige(
+        "C15.e",
+        ok,
+        bad_f[0] if bad_f else lt_stores[0],
+        "link targets below a mapping entry are selected by the entry's key alone" if ok else "link targets below a mapping entry are only kept when they continue with `init_args.`: for entries of dataclass type the target is not passed down, the nested parser requires the linked parameter from the user again (dump / save of a parsed configuration fail)",
+        fn=ad15,
+        construct="linked_targets narrowed by key only",
+    )
+
     return ctx.finish(
         explanation=(
             "Dominance / must-pass-through queries on the CFGs of _parse_common, ActionLink.__init__/__call__/set_target_value/apply_parsing_links, dump and save: "
